@@ -113,6 +113,18 @@ def run(repo, rep):
     rule_provenance(repo, rep, vela)
     rule_read_config(repo, rep, af)
     rule_get_vela_config(repo, rep, af)
+    # the directory of the bundled configuration files must not depend on the working directory at import time
+    cfp = vela.assign("CONFIG_FILES_PATH")
+    calls_ = [call_name(c_) for c_ in ast.walk(cfp) if isinstance(c_, ast.Call)]
+    names_ = {x.id for x in ast.walk(cfp) if isinstance(x, ast.Name)}
+    ok_ = "__file__" in names_ and not any(c_ and c_.split(".")[-1] in ("relpath", "getcwd", "curdir") for c_ in calls_) and \
+        (not calls_ or (calls_[0] or "").split(".")[-1] in ("normpath", "abspath", "realpath", "join", "dirname", "resolve"))
+    rep.check(ok_, "C18-a", "ethosu/vela/vela.py:CONFIG_FILES_PATH", "the bundled configuration directory is derived from __file__ as an absolute path",
+              f"`{str(norm(cfp))[:100]}` is relative to the working directory at import time: after a chdir --config Arm/vela.ini is no longer found")
+    from . import c13
+
+    rep.run_borrowed(c13, {"C13-b": "C18-b"}, repo, only_sites=("architecture_features",))
+    rule_literal_options(repo, rep, vela)
     rule_docs(repo, rep, vela, af)
     rule_ini(repo, rep, af)
 
@@ -382,6 +394,30 @@ def rule_get_vela_config(repo, rep, af):
 
 
 # ------------------------------------------------------------------ e
+
+
+def rule_literal_options(repo, rep, vela):
+    """Inside main() a keyword argument that is named like a command-line option carries that option: a string / number
+    literal in its place silently ignores what the user asked for (convert() / convert_bytes() have no `args` and are not
+    looked at)."""
+    mn = vela.func("main")
+    dests = set()
+    for c in calls_in(mn, ".add_argument"):
+        for a in c.args:
+            if isinstance(a, ast.Constant) and isinstance(a.value, str) and a.value.startswith("--"):
+                dests.add(a.value[2:].replace("-", "_"))
+        for k in c.keywords:
+            if k.arg == "dest" and isinstance(k.value, ast.Constant):
+                dests.add(k.value.value)
+    n = 0
+    for c in calls_in(mn):
+        for k in c.keywords:
+            if k.arg in dests and call_name(c) not in ("parser.add_argument",) and not (call_name(c) or "").endswith("add_argument"):
+                n += 1
+                rep.check(not isinstance(k.value, ast.Constant), "C18-c", "ethosu/vela/vela.py:main", f"{call_name(c)}({k.arg}=...) passes the option, not a literal",
+                          f"{k.arg}={str(norm(k.value))}: --{k.arg.replace('_', '-')} is silently ignored on this path")
+    if n < 10:
+        raise AnalysisError(f"main(): only {n} option-named keyword arguments found")
 
 
 def rule_docs(repo, rep, vela, af):
